@@ -5,7 +5,7 @@ prop, name, out, needs = sys.argv[1:5]
 dst = os.path.join("/verif/seeded", name)
 os.makedirs(dst, exist_ok=True)
 for f in os.listdir(out):
-    if f in ("patch.diff", "demo.cpp", "CMakeLists.txt", "build.sh", "notes.md", "confirm.txt"):
+    if f in ("patch.diff", "demo.cpp", "CMakeLists.txt", "build.sh", "notes.md", "confirm.txt", "patch-orig.diff"):
         shutil.copy(os.path.join(out, f), os.path.join(dst, f))
 conf = open(os.path.join(out, "confirm.txt")).read().splitlines()
 meta = {"breaks_property": prop, "needs_to_manifest": needs,
